@@ -309,33 +309,28 @@ impl DerivedRelationsManager {
     /// Used by `notify_base_update` to ensure atomic invalidation.
     fn compute_invalidation_set(&self, base_relation: &str) -> Vec<String> {
         let mut to_invalidate = Vec::new();
-        let mut seen = HashSet::new();
+        let mut seen: HashSet<String> = HashSet::new();
 
-        // Find direct dependents of the base relation
-        if let Some(derived_set) = self.base_to_derived.get(base_relation) {
-            for derived in derived_set {
-                if let Some(mat) = self.materialized.get(derived) {
-                    if mat.valid && seen.insert(derived.clone()) {
-                        to_invalidate.push(derived.clone());
+        // Walk the dependency edges transitively from the updated relation. Every dependent
+        // is followed, materialized or not: a rule that reads an unmaterialized derived
+        // relation goes stale with it just the same (`base_to_derived` is keyed by every
+        // relation a rule body mentions, base or derived).
+        let mut work = vec![base_relation.to_string()];
+        while let Some(rel) = work.pop() {
+            let dependents = self
+                .base_to_derived
+                .get(&rel)
+                .into_iter()
+                .flatten()
+                .chain(self.derived_to_derived.get(&rel).into_iter().flatten());
+            for dep in dependents {
+                if seen.insert(dep.clone()) {
+                    if self.materialized.get(dep).is_some_and(|m| m.valid) {
+                        to_invalidate.push(dep.clone());
                     }
+                    work.push(dep.clone());
                 }
             }
-        }
-
-        // Cascade: find derived relations that depend on invalidated derived relations
-        let mut i = 0;
-        while i < to_invalidate.len() {
-            let rel = to_invalidate[i].clone();
-            if let Some(dependents) = self.derived_to_derived.get(&rel) {
-                for dep in dependents {
-                    if let Some(mat) = self.materialized.get(dep) {
-                        if mat.valid && seen.insert(dep.clone()) {
-                            to_invalidate.push(dep.clone());
-                        }
-                    }
-                }
-            }
-            i += 1;
         }
 
         to_invalidate
@@ -546,6 +541,21 @@ mod tests {
 
         assert!(invalidated.contains(&"path".to_string()));
         assert!(invalidated.contains(&"reachable".to_string()));
+    }
+
+    #[test]
+    fn test_invalidation_through_unmaterialized_relation() {
+        let mut manager = DerivedRelationsManager::new();
+
+        // a(X) <- e(X).  b(X) <- a(X).  Only b is materialized.
+        manager.register_rule(make_compiled_rule("a", vec!["e"], 0));
+        manager.register_rule(make_compiled_rule("b", vec!["a"], 1));
+        manager.set_materialized("b", vec![make_tuple(vec![1])]);
+
+        // e changes: b reads e through a and must be invalidated
+        let invalidated = manager.notify_base_update("e");
+        assert_eq!(invalidated, vec!["b".to_string()]);
+        assert!(manager.get_materialized("b").is_none());
     }
 
     #[test]
